@@ -525,6 +525,66 @@ func (e *effectEngine) of(fn *ssa.Function) []Effect {
 			return Effect{Kind: "global", Owner: a.String()}
 		case *ssa.Alloc:
 			return Effect{Kind: "deref", Owner: namedKey(a.Type()), Fresh: true}
+		case *ssa.Parameter:
+			// a cell handed in by the callers of an unexported helper: when every caller passes the
+			// address of the like-named field of its own object (operandType(&inst.Typ, inst.X)), the
+			// store is a store to that field
+			if fn.Object() != nil && !fn.Object().Exported() {
+				if node := e.c.CallGraph().Nodes[fn]; node != nil && len(node.In) > 0 {
+					idx := -1
+					for i, p := range fn.Params {
+						if p == a {
+							idx = i
+						}
+					}
+					fname, owner := "", ""
+					all := idx >= 0
+					fresh := true
+					for _, in := range node.In {
+						if in.Site == nil || !all {
+							all = false
+							break
+						}
+						cc := in.Site.Common()
+						ai := idx
+						if cc.IsInvoke() {
+							ai = idx - 1
+						}
+						if ai < 0 || ai >= len(cc.Args) {
+							all = false
+							break
+						}
+						fa, ok := cc.Args[ai].(*ssa.FieldAddr)
+						if !ok {
+							all = false
+							break
+						}
+						st := fa.X.Type().Underlying().(*types.Pointer).Elem()
+						sct, ok := st.Underlying().(*types.Struct)
+						if !ok {
+							all = false
+							break
+						}
+						n := sct.Field(fa.Field).Name()
+						if fname == "" {
+							fname, owner = n, namedKey(st)
+						} else if fname != n {
+							all = false
+						}
+						if !e.fresh(fa.X) {
+							fresh = false
+						}
+					}
+					if all && fname != "" {
+						return Effect{Kind: "field", Owner: owner, Field: fname, Fresh: fresh}
+					}
+				}
+			}
+			ef := Effect{Kind: "deref", Owner: namedKey(addr.Type()), Fresh: e.fresh(addr)}
+			if g := globalBehind(addr); g != nil {
+				ef.ViaGlobal = g.String()
+			}
+			return ef
 		default:
 			ef := Effect{Kind: "deref", Owner: namedKey(addr.Type()), Fresh: e.fresh(addr)}
 			if g := globalBehind(addr); g != nil {
